@@ -235,6 +235,9 @@ def write_evidence(ctx, gate, coverage, assumptions=None):
         "violations": len(ctx.violations),
     }
     _validate_evidence(ev)
+    if ctx.replay:
+        # a replay run looks at one stored input: it must not overwrite the evidence of the last full run
+        return ev
     with open(os.path.join(EVIDENCE, f"{ctx.prop}.json"), "w") as f:
         json.dump(ev, f, indent=1, default=str)
     return ev
